@@ -243,6 +243,12 @@ impl<R: RefCounter, PR: PathRefCounter, H: Header> Memory<R, PR, H> {
         )
       };
 
+      #[cfg(feature = "verif-hooks")]
+      crate::verif::plain_write(
+        self.ptr.add(data_offset) as usize,
+        self.cap as usize - data_offset,
+        "Memory::clear",
+      );
       core::ptr::write_bytes(
         self.ptr.add(data_offset),
         0,
@@ -1027,6 +1033,9 @@ impl<R: RefCounter, PR: PathRefCounter, H: Header> Memory<R, PR, H> {
   /// - This method must be invoked in the drop impl of `Arena`.
   pub(crate) unsafe fn unmount(&mut self) {
     unsafe {
+      #[cfg(feature = "verif-hooks")]
+      crate::verif::teardown(self.ptr as usize, self.cap as usize);
+
       #[cfg(all(feature = "memmap", not(target_family = "wasm")))]
       if self.lock_meta {
         let _ = self.munlock(self.header_offset, mem::size_of::<H>());
